@@ -291,8 +291,10 @@ class RefInternal:
 
 def _to_sparse(dense, fmt, style=None):
     """style None: canonical matrix without stored zeros.  "zeros": every entry is stored, exact zeros
-    included (a fixed sparsity pattern).  "dup": every non-zero entry is stored twice as v/2 + v/2
-    (term-by-term assembly); duplicates are kept un-summed in all three formats."""
+    included (a fixed sparsity pattern).  "dup": every non-zero entry is stored twice as 3v/4 + v/4
+    (term-by-term assembly; both parts and their sum are exact for dyadic v, but fl(3v/4 * y) + fl(v/4 * y) is
+    not fl(v * y), so merging or re-ordering the duplicates shows in the bits); duplicates are kept un-summed in all
+    three formats, and in COO the second parts follow after all first parts."""
     import scipy.sparse as sps
 
     D = np.asarray(dense, dtype=float)
@@ -318,10 +320,16 @@ def _to_sparse(dense, fmt, style=None):
         v = D[i, j]
         if style == "zeros":
             rows.append(i), cols.append(j), data.append(v)
-        elif v != 0.0:
+        elif v != 0.0 and fmt != "coo":
             rows += [i, i]
             cols += [j, j]
-            data += [v / 2.0, v / 2.0]
+            data += [0.75 * v, 0.25 * v]
+        elif v != 0.0:
+            rows.append(i), cols.append(j), data.append(0.75 * v)
+    if style == "dup" and fmt == "coo":
+        for i, j in order:
+            if D[i, j] != 0.0:
+                rows.append(i), cols.append(j), data.append(0.25 * D[i, j])
     rows, cols, data = np.array(rows, dtype=np.int32), np.array(cols, dtype=np.int32), np.array(data, dtype=float)
     if fmt == "coo":
         return sps.coo_matrix((data, (rows, cols)), shape=(r, c))
